@@ -204,7 +204,8 @@ func (f *Fail) Error() string {
 type recKey struct{}
 
 type world struct {
-	maxTimerMs  int // longest recovery timeout / switching delay of any MultiEndpoint configured in this history
+	poisoned    []string // targets dialed through the DialFunc of a rejected update
+	maxTimerMs  int      // longest recovery timeout / switching delay of any MultiEndpoint configured in this history
 	everNames   map[string]bool
 	props       map[string]bool
 	labels      map[string]int
@@ -263,6 +264,12 @@ func (w *world) dialFunc(ctx context.Context, target string, dopts ...grpc.DialO
 		w.dialed[target] = append(w.dialed[target], c)
 	}
 	return c, err
+}
+
+// poisonDial is a DialFunc that only rejected option sets carry.
+func (w *world) poisonDial(ctx context.Context, target string, dopts ...grpc.DialOption) (*grpc.ClientConn, error) {
+	w.poisoned = append(w.poisoned, target)
+	return nil, fmt.Errorf("the dialer of a rejected update was used for %q", target)
 }
 
 // route issues one RPC and returns the pool (endpoint) it entered.
@@ -452,6 +459,9 @@ func (w *world) noteTimers(o *grpcgcp.GCPMultiEndpointOptions) {
 }
 
 func (w *world) settle(what, prop string) {
+	if len(w.poisoned) > 0 {
+		w.fail("C16", "rejected-dialer", "%s: the DialFunc that came with a rejected update was used afterwards (for %v): the rejected call changed how the object dials", what, w.poisoned)
+	}
 	deadline := time.Now().Add(10 * time.Second)
 	stream := false
 	for {
@@ -929,7 +939,15 @@ func Run(c *Case, props map[string]bool) (res Result) {
 			for n, e := range all {
 				liveBefore[n] = e.liveConns()
 			}
-			if err := gme.UpdateMultiEndpoints(o); err != nil {
+			if w.step%2 == 1 {
+				o.DialFunc = nil // the dialer is given at construction; an update need not repeat it
+				w.labels["update-without-dialfunc"]++
+			}
+			err := gme.UpdateMultiEndpoints(o)
+			if len(w.poisoned) > 0 {
+				w.fail("C16", "rejected-dialer", "update: the DialFunc that came with an earlier, rejected update was used (for %v): the rejected call changed how the object dials (this update returned %v)", w.poisoned, err)
+			}
+			if err != nil {
 				w.fail("C15", "update-rejected", "valid update rejected: %v", err)
 			}
 			if w.props["C17"] {
@@ -1083,6 +1101,11 @@ func Run(c *Case, props map[string]bool) (res Result) {
 			}
 			if op.Bad == "nil-pointer" {
 				o = nil
+			} else if op.Nth%2 == 1 && op.Bad != "dialfail" {
+				// the rejected options come with a dialer of their own (the object dials with the one it was built with; a
+				// rejected update changes nothing, so this one must never be called)
+				o.DialFunc = w.poisonDial
+				w.labels["rejected-update-carries-another-dialer"]++
 			}
 			err := gme.UpdateMultiEndpoints(o)
 			w.failAt = 0
